@@ -238,7 +238,9 @@ class FuncPaths:
         if depth <= 0:
             return {(name,)}, set()
         vals = self.d.values.get(name, [])
-        if vals and all(isinstance(v, ast.Call) for _, v, _ in vals if v is not None) and \
+        if vals and all(isinstance(v, ast.Call) and not (
+                isinstance(v.func, ast.Name) and v.func.id == 'cast')     # typing.cast(T, x) is x
+                for _, v, _ in vals if v is not None) and \
                 all(k.startswith('assign') for k, _, _ in vals):
             # the result of a call is a value of its own: `dt = unwrap(x)` then `dt.name` and
             # `dt.format` are two different things, not both "all of x"
@@ -476,6 +478,13 @@ def analyse_site(pm, fp, f, site):
             continue          # invariant while the table lives (not an element of a loop)
         if not _covered(p, kreads):
             missing.append(p)
+    # a local that the skipped code itself binds is not an input of it
+    bound_inside = set()
+    for s_ in region:
+        for x in ast.walk(s_):
+            if isinstance(x, ast.Name) and isinstance(x.ctx, ast.Store):
+                bound_inside.add(x.id)
+    missing = [p for p in missing if p[0] not in bound_inside]
     # drop paths that extend another missing path
     missing = [p for p in missing if not any(q != p and p[:len(q)] == q for q in missing)]
     if missing:
